@@ -2,6 +2,7 @@ package harness
 
 import (
 	"bytes"
+	"net"
 	"fmt"
 	"os"
 	"path/filepath"
@@ -69,6 +70,8 @@ type SExec struct {
 	prevRO                 bool
 	ROProbes               int
 	snaps                  []string
+	snapImg                map[string]*Image // image of the volume at each successful sequential volume snapshot
+	snapMarked             map[string]string // user snapshot -> "removed" | "maybe" (a delete request was accepted / failed half-way)
 	punchEver              bool
 	subBlockWO             map[int]map[int64]bool // node -> blocks hit by a sub-block write acknowledged while it was rebuilding (WO)
 	wseq                   map[int]int64          // per race writer: last sequence number used
@@ -496,6 +499,12 @@ func (x *SExec) apply(i int, op SOp) *Fail {
 		return x.doCtlResize(i, op)
 	case "race":
 		return x.doRace(i, op)
+	case "snaprace":
+		return x.doSnapRace(i, op)
+	case "ctldelsnap":
+		return x.doCtlDeleteSnapshot(i, op)
+	case "cleaner":
+		return x.doCleaner(i, op)
 	case "rebuild":
 		return x.doRebuild(i, op)
 	case "sysrebuild":
@@ -996,6 +1005,10 @@ func (x *SExec) doSnapshot(i int, op SOp) *Fail {
 	}
 	if err == nil {
 		x.snaps = append(x.snaps, name)
+		if x.snapImg == nil {
+			x.snapImg = map[string]*Image{}
+		}
+		x.snapImg[name] = x.Live.Clone()
 		x.Labels["snapshot:ok"]++
 		if len(F) > 0 {
 			x.Labels["snapshot:partial-failure"]++
@@ -1819,6 +1832,45 @@ func (x *SExec) doSysRebuild(i int, op SOp) *Fail {
 		}
 	}
 	punchBefore := types.ShouldPunchHoles
+	if op.Str == "portbusy" {
+		// some of the ports the target's sync agent hands to its ssync receivers are
+		// taken: those transfers fail (the receiver cannot bind) while others work -
+		// a rebuild with a failed transfer must not end in a promotion
+		lo := portBase() + 40*n
+		// which ports: all of them (every transfer fails), every second one (the agent
+		// hands them out in turn, data file and meta file alternate: one kind fails,
+		// the other works), or a window of every second one
+		first, cnt, stride := 0, 40, 1
+		switch op.Seed % 4 {
+		case 0, 1:
+		case 2:
+			first, cnt, stride = op.Seed/4%2, 20, 2
+		default:
+			first, cnt, stride = op.Seed/4%40, 8+(op.Seed/160)%12, 2
+		}
+		var held []net.Listener
+		for k := 0; k < cnt; k++ {
+			if ln, err := net.Listen("tcp", fmt.Sprintf("0.0.0.0:%d", lo+(first+stride*k)%40)); err == nil {
+				held = append(held, ln)
+				// whoever connects (the ssync sender looking for its receiver) is hung up on at once
+				go func(ln net.Listener) {
+					for {
+						c, err := ln.Accept()
+						if err != nil {
+							return
+						}
+						c.Close()
+					}
+				}(ln)
+			}
+		}
+		defer func() {
+			for _, ln := range held {
+				ln.Close()
+			}
+		}()
+		x.Labels["sysrebuild:receiver-ports-busy"]++
+	}
 	task := jsync.NewTask(st.CtrlURL())
 	done := make(chan error, 1)
 	t0 := time.Now()
@@ -1864,6 +1916,16 @@ finished:
 	select {
 	case err = <-done:
 	case <-time.After(120 * time.Second):
+		if op.Str != "" {
+			// a fault was injected into the transfers: slow failure is not a hang
+			x.Labels["sysrebuild:abandoned-after-120s-with-injected-fault"]++
+			if m := st.Mode(n); m == types.RW {
+				return sfail("sysrebuild|unfinished-but-promoted", "AddReplica has not returned but the replica is listed RW", "C07")
+			}
+			st.C.RemoveReplica(node.Addr)
+			x.detach(n)
+			return nil
+		}
 		return sfail("sysrebuild|hangs", "sync.Task.AddReplica did not return within 120 s", "C07")
 	}
 	node.fixDrainer()
@@ -1945,6 +2007,78 @@ finished:
 			return sfail("rebuild|snapshot-differs", fmt.Sprintf("snapshot %s differs between source n%d and promoted n%d", snap, src, n), "C07")
 		}
 		x.Labels["rebuild:snapshot-compared"]++
+	}
+	return nil
+}
+
+// doSnapRace: a volume snapshot request arrives while the controller is busy
+// (lock held) with a write that one replica stalls on and that ends with that
+// replica detached. Whatever the order in which the two take effect, the
+// snapshot is all-or-nothing over the configured replicas: if it is accepted
+// every one of the RF replicas holds it, if it is refused none does.
+// op.Node = the replica that stalls, op.Off/Len/Seed = the write.
+func (x *SExec) doSnapRace(i int, op SOp) *Fail {
+	st := x.St
+	n := op.Node % len(st.Nodes)
+	if x.nRW() != x.P.RF || x.Mode[n] != types.RW || x.woNode() >= 0 {
+		return nil
+	}
+	for j, m := range x.Mode {
+		if m == types.ERR || (m == "" && st.Mode(j) != "") {
+			return nil
+		}
+	}
+	name := "sr" + strconv.Itoa(i)
+	out := make([]Outcome, len(st.Nodes))
+	for j := range out {
+		out[j] = OK
+	}
+	out[n] = STALL
+	before := st.Nodes[n].LogLen("write")
+	wop := SOp{K: "write", Off: op.Off, Len: op.Len, Seed: op.Seed, Out: out}
+	wdone := make(chan *Fail, 1)
+	go func() { wdone <- x.doWrite(i, wop) }()
+	arrived := false
+	for t0 := time.Now(); time.Since(t0) < 3*time.Second; time.Sleep(2 * time.Millisecond) {
+		if st.Nodes[n].LogLen("write") > before {
+			arrived = true
+			break
+		}
+	}
+	var serr error
+	asked := false
+	if arrived {
+		// the controller sits in WriteAt, lock held, waiting for the stalled replica
+		asked = true
+		_, serr = st.C.Snapshot(name)
+	}
+	wf := <-wdone
+	if wf != nil {
+		return wf
+	}
+	if !asked {
+		x.Labels["snaprace:write-did-not-reach-replica"]++
+		return nil
+	}
+	holders := []int{}
+	for j, nd := range st.Nodes {
+		if _, err := os.Stat(filepath.Join(nd.Dir, snapDisk(name))); err == nil {
+			holders = append(holders, j)
+		}
+	}
+	x.tracef("snaprace: snapshot %s during a write stalled by n%d -> %v, held by %v", name, n, serr, holders)
+	x.Labels["snaprace:done"]++
+	if serr == nil {
+		x.snaps = append(x.snaps, name)
+		if len(holders) != x.P.RF {
+			return sfail("snapshot|accepted-while-a-replica-was-leaving|not-on-all-replicas", fmt.Sprintf("volume snapshot %s was accepted while n%d was being detached; it exists on %v only (RF=%d)", name, n, holders, x.P.RF), "C13")
+		}
+		x.Labels["snaprace:accepted-on-all"]++
+	} else {
+		if len(holders) != 0 {
+			return sfail("snapshot|refused-but-taken", fmt.Sprintf("volume snapshot %s was refused (%v) but exists on %v", name, serr, holders), "C13")
+		}
+		x.Labels["snaprace:refused"]++
 	}
 	return nil
 }
